@@ -1165,8 +1165,11 @@ impl LZDiff {
             }
         }
 
-        // Remaining bases are literals
-        est_cost += text_size - i;
+        // Remaining bases are literals. After a match that was extended backwards, i has advanced by
+        // len_bck + len_fwd without being rewound, so it can exceed text_size by up to len_bck; C++ AGC
+        // computes this in wrapping uint32_t arithmetic (the excess is subtracted). Do the same explicitly
+        // instead of overflowing (which panicked with overflow checks on).
+        est_cost = est_cost.wrapping_add(text_size.wrapping_sub(i));
 
         est_cost
     }
